@@ -115,6 +115,9 @@ claim('C36', 'E2', 'exhaustive enumeration of event orders (up to 4-5 events: ti
       'Every event sequence for ping/pong, stale, connection expiry (client- and server-side refresh) and subscription expiry (client- and server-side, server-side subscription); a connection/subscription is ended with the right code exactly when the reference timeline says it must be, never when it must not.',
       'Expiry times are unix seconds, so the reference model has a 1 s (+ presence interval) undetermined window in which either outcome is accepted.')
 
+e1('C22', 'a protocol-following map client (state pages, stream pages, live transition or recovery join; page size 1-2) against a writer thread doing up to 3 of publish / remove / clear / key expiry / stream expiry on the real node and Memory map broker', 'Every interleaving within the bound over ephemeral / recoverable / persistent modes, StreamSize 2 and 100, tags filter on/off; at quiescence the client map equals the broker state restricted to admitted keys, or the client was told (unrecoverable position / insufficient state / state invalidated); recovered=true never hides an undelivered change.')
+e1('C38', 'channel medium options (KeepLatestPublication, SharedPositionSync; unexported queue / broadcast delay reported separately) with two broadcasts, position checks with stale / valid positions, medium shutdown on last unsubscribe, racing subscribers', 'Every interleaving within the bound (0-2) of six scenarios with at most two subscribers; per positioned subscriber the C01 offset oracle, the MaxUint64 sentinel never reaches a client, a detected loss ends every positioned subscriber, non-positioned subscribers are untouched.')
+
 NA = {
  'C18': 'needs a Redis server (or faithful emulator) to execute the Redis broker; none exists in the sealed sandbox, so Redis-vs-Memory agreement cannot be explored',
  'C23': 'needs a Redis server (or faithful emulator) to execute the Redis map broker; none exists in the sealed sandbox',
